@@ -32,6 +32,14 @@ pub fn run(name: &str) -> i32 {
             }
             0
         }
+        "print-jubjub-subgroup-generator" => {
+            use ff::PrimeField;
+            use group::{Curve, Group};
+            let g = midnight_curves::JubjubSubgroup::generator();
+            let a: midnight_curves::JubjubAffine = midnight_curves::JubjubExtended::from(g).to_affine();
+            println!("u={:?} v={:?}", a.get_u().to_repr(), a.get_v().to_repr());
+            0
+        }
         _ => {
             println!("unknown witness {name}");
             4
